@@ -41,6 +41,8 @@ def run_case(case: dict[str, Any]) -> dict[str, Any]:
     def fn(samples: Any, conf: Any, props: Any) -> float:
         rec["calls"].append({"samples": [(s.timestamp, s.value.base_value) for s in samples],
                              "sampling_period": props.sampling_period})
+        if case.get("nan_every") and len(rec["calls"]) % case["nan_every"] == 0:
+            return math.nan  # a resampling function may yield NaN (e.g. too few samples): still one sample per tick
         return float(len(rec["calls"]))
 
     async def main() -> None:
